@@ -109,8 +109,9 @@ func resolveVocab(P *Program) *Vocab {
 	get(&v.CommitFh, "fstxn.(*FsTxn).CommitFh")
 	get(&v.Abort, "fstxn.(*FsTxn).Abort")
 	get(&v.commitWait, "fstxn.(*FsTxn).commitWait")
-	get(&v.preCommit, "fstxn.(*FsTxn).preCommit")
-	get(&v.postCommit, "fstxn.(*FsTxn).postCommit")
+	// thin wrappers of the allocator epilogues: a tree may write them out in the commit funnel
+	v.preCommit = P.Func("fstxn.(*FsTxn).preCommit")
+	v.postCommit = P.Func("fstxn.(*FsTxn).postCommit")
 	get(&v.releaseInodes, "fstxn.(*FsTxn).releaseInodes")
 	get(&v.ReleaseInode, "fstxn.(*FsTxn).ReleaseInode")
 	get(&v.GetInodeLocked, "fstxn.(*FsTxn).GetInodeLocked")
